@@ -181,9 +181,24 @@ fn make_call_for(ctx: &mut CaseCtx, id_prefix: &str, gs: GSchema) -> Option<Call
     let env = ctx.rng.pick_clone(&envs);
     let wg = WorldGen::new(&mut ctx.rng, &gs);
     let mut w = wg.world(&mut ctx.rng, &env);
-    // sometimes a non-conformant request, so that validateRequest matters
-    if ctx.rng.chance(1, 5) {
-        w.context.insert("zz_undeclared".into(), GValue::Long(1));
+    // sometimes a non-conformant request, so that validateRequest matters: an undeclared context attribute
+    // (refused by schema-based context parsing already) or a principal of a type the action does not apply to
+    // (refused by request validation only)
+    match ctx.rng.below(8) {
+        0 => {
+            w.context.insert("zz_undeclared".into(), GValue::Long(1));
+        }
+        1 | 2 => {
+            let allowed: Vec<String> = gs.actions.iter().find(|a| a.uid() == env.action).and_then(|a| a.applies.as_ref()).map(|ap| ap.principals.clone()).unwrap_or_default();
+            let others: Vec<&GEntityType> = gs.entity_types.iter().filter(|e| !allowed.contains(&e.name)).collect();
+            if !others.is_empty() {
+                let et = *ctx.rng.pick(&others);
+                let id = et.enum_ids.as_ref().map(|i| i[0].clone()).unwrap_or_else(|| "a".into());
+                w.principal = Uid::new(&et.name, id);
+                ctx.count("request:principal-type-not-applicable");
+            }
+        }
+        _ => {}
     }
     let with_schema = ctx.rng.chance(2, 3);
     let schema_form = if with_schema {
